@@ -27,7 +27,7 @@ const c19Ref = "verif_cref"
 type c19Cfg struct {
 	Use      string   // qual | anon | both | neither   (how "C" is introduced besides a preamble)
 	Pre      []string // preamble blocks as handed to CgoPreamble, in order
-	Styles   string   // one letter per block: o(ne-line text) m(ulti-line text) r(aw comment)
+	Styles   string   // one letter per block: o(ne-line text) m(ulti-line text) r(aw comment) n(one-line text + "\n") t(wo-line text + "\n")
 	Others   string   // none | one | many | aliased | anon
 	Prefix   bool
 	Hint     string // none | name | alias | dot
@@ -35,13 +35,21 @@ type c19Cfg struct {
 }
 
 // preamble block number i (0-based) in the given style. Raw blocks alternate between the
-// two raw comment forms and are given without trailing newline.
+// two raw comment forms and are given without trailing newline.  The styles n and t are
+// texts that END IN A NEWLINE (what a caller gets from a raw string literal or from a
+// template): `"#include <math.h>\n"` is a text that contains a newline, so it is written as
+// a /* */ block, and the block must close without leaving an empty line or a second
+// newline between the text and `import "C"`.
 func c19Block(style byte, i int, rawLine bool) string {
 	switch style {
 	case 'o':
 		return fmt.Sprintf("#include <one%d.h>", i)
 	case 'm':
 		return fmt.Sprintf("#include <multi%d.h>\nint f%d(void);", i, i)
+	case 'n':
+		return fmt.Sprintf("#include <onenl%d.h>\n", i)
+	case 't':
+		return fmt.Sprintf("#include <twonl%d.h>\nint g%d(void);\n", i, i)
 	default:
 		if rawLine {
 			return fmt.Sprintf("// #include <rawline%d.h>", i)
@@ -62,9 +70,24 @@ func c19Blocks(styles string, firstRawIsLine bool) []string {
 	return out
 }
 
-// every sequence of 0..4 blocks over the three styles (121 sequences)
-func c19Seqs() []string {
-	st := "omr"
+// every sequence of 0..4 blocks over the three styles without trailing newline (121
+// sequences)
+func c19Seqs() []string { return c19SeqsOver("omr") }
+
+// c19NLSeqs: every sequence of 1..4 blocks over all five styles that contains at least one
+// "\n"-terminated block (n or t), alone and mixed with the other styles: 780 - 120 = 660
+// sequences, shortest first.
+func c19NLSeqs() []string {
+	var out []string
+	for _, s := range c19SeqsOver("omrnt") {
+		if strings.ContainsAny(s, "nt") {
+			out = append(out, s)
+		}
+	}
+	return out
+}
+
+func c19SeqsOver(st string) []string {
 	seqs := []string{""}
 	var rec func(prefix string, n int)
 	rec = func(prefix string, n int) {
@@ -143,7 +166,13 @@ func c19Make(cfg c19Cfg) *Case {
 	h = append(h, hist.Op{Kind: "render", F: 0}, hist.Op{Kind: "imports", F: 0})
 	tags := []string{"use=" + cfg.Use, fmt.Sprintf("preambles=%d", len(cfg.Pre)), "others=" + cfg.Others, "prefix=" + onoff(cfg.Prefix), "hint=" + cfg.Hint}
 	for _, s := range []byte(cfg.Styles) {
-		tags = append(tags, "style="+map[byte]string{'o': "one-line", 'm': "multi-line", 'r': "raw"}[s])
+		tags = append(tags, "style="+map[byte]string{'o': "one-line", 'm': "multi-line", 'r': "raw", 'n': "one-line+newline", 't': "two-line+newline"}[s])
+	}
+	if strings.ContainsAny(cfg.Styles, "nt") {
+		tags = append(tags, "preamble-trailing-newline")
+		if strings.Trim(cfg.Styles, "nt") != "" {
+			tags = append(tags, "preamble-trailing-newline+other-styles")
+		}
 	}
 	for _, p := range cfg.Pre {
 		if strings.HasPrefix(p, "//") {
@@ -178,10 +207,35 @@ func (c19) Generate(r *rand.Rand, t string) []*Case {
 	// both forms; thorough: every sequence with a raw block starts with either form, and
 	// everything is also rendered with NoFormat).
 	// Smallest configurations first: a failure list then starts with a near-minimal case.
-	for _, seq := range c19Seqs() {
+	// Preamble texts that end in a newline (styles n, t): the same product over the 660
+	// sequences of 1..4 blocks that contain such a block.  thorough runs it completely; quick
+	// keeps every sequence but draws each configuration of it with probability 1/3 (from r),
+	// which keeps the quick tier at roughly 2.5 times its former size.
+	type seqT struct {
+		s  string
+		nl bool
+	}
+	var seqs []seqT
+	nl := c19NLSeqs()
+	k := 0
+	for _, s := range c19Seqs() { // merge by length: smallest configurations first
+		for k < len(nl) && len(nl[k]) < len(s) {
+			seqs = append(seqs, seqT{nl[k], true})
+			k++
+		}
+		seqs = append(seqs, seqT{s, false})
+	}
+	for ; k < len(nl); k++ {
+		seqs = append(seqs, seqT{nl[k], true})
+	}
+	for _, sq := range seqs {
+		seq := sq.s
 		raws := []bool{true}
 		if strings.Count(seq, "r") == 1 || (full && strings.Contains(seq, "r")) {
 			raws = []bool{true, false} // a single raw block is tried in both comment forms
+		}
+		if sq.nl && !full {
+			raws = []bool{r.Intn(2) == 0} // quick: one raw form, drawn per sequence
 		}
 		for _, rawLine := range raws {
 			pre := c19Blocks(seq, rawLine)
@@ -190,6 +244,9 @@ func (c19) Generate(r *rand.Rand, t string) []*Case {
 					for _, hint := range []string{"none", "name", "alias", "dot"} {
 						for _, prefix := range []bool{false, true} {
 							for _, nf := range formats {
+								if sq.nl && !full && r.Intn(3) != 0 {
+									continue
+								}
 								out = append(out, c19Make(c19Cfg{Use: use, Pre: pre, Styles: seq, Others: others, Prefix: prefix, Hint: hint, NoFormat: nf}))
 							}
 						}
